@@ -360,6 +360,28 @@ impl Exec {
             "w" | "aw" => self.write_op(t),
             // fixed call sequences through the api crate's closure-taking container writers: every write
             // status as the api crate reports it (its own mapping of the provider's numeric codes)
+            "logunwind" => {
+                // a message logged through the api crate from a destructor that runs while a panic of the embedding
+                // code unwinds (and is caught): it is logged like any other
+                struct Guard(Vec<u8>);
+                impl Drop for Guard {
+                    fn drop(&mut self) {
+                        let ms = unsafe { std::str::from_utf8_unchecked(&self.0) };
+                        let mut c = api::Context;
+                        c.log(ms);
+                    }
+                }
+                let len: usize = t.get(1)?.parse().ok()?;
+                let seed: u64 = t.get(2)?.parse().ok()?;
+                let m = msg_bytes(len, seed);
+                let r = std::panic::catch_unwind(move || {
+                    let _g = Guard(m);
+                    if std::hint::black_box(true) {
+                        panic!("a panic of the embedding code with a logging destructor on the stack");
+                    }
+                });
+                Some(if r.is_err() { "ok".to_string() } else { "no-panic".to_string() })
+            }
             "panicinit" => {
                 // the documented first step of a guest: natively it installs nothing
                 api::init_panic_handler();
